@@ -1,4 +1,5 @@
 """C06 -- automaton-driven enumeration (M1, M2, M3, U1)."""
+from ..rules import rep_rules as RR
 from ..rules import enum_rules as E
 from ..rules import fsa_rules as F
 from ..rules import dtype_rules as DT
@@ -30,6 +31,8 @@ def run(ctx):
     ctx.do(DT.rule_lk1, ["geometry_tools/representation.py"], scope=ctx.scope(ENTRIES))
     ctx.do(E.rule_m4)
     ctx.do(SI.rule_fw1)
+    ctx.do(SI.rule_bfs2)
+    ctx.do(RR.rule_wp1)
     ctx.do(u1, ENTRIES, min_functions=10)
     ctx.r.assume("equality of the returned word set with the automaton's "
                  "language, free-group uniqueness and memo reuse across "
